@@ -423,8 +423,9 @@ theorem C11_resume_same_sequence (p1 p2 : Params α) (f : Nat → List α → Op
 
 /-- **C11, the global search never reads what a local refinement overwrites** (any numeric type, any objective,
 raising or not, any parameters).  Two consecutive `Solve` calls with the refinements `refine1`, `refine` configured
-give the same result as with `refine1'`, `refine'`, up to the point and the value holder of the stored trials and
-`numberOfLocalTrials` (`PState.forget`); in particular the same evaluations, calls, event log, trial and iteration
+give the same result as with `refine1'`, `refine'`, up to the point and the value holder of the stored trials,
+`numberOfLocalTrials` and the mark `__refinedTrial` of the trial refined last (`PState.forget`; these are exactly what
+`DoLocalRefinement` writes and what only `GetResults` reads); in particular the same evaluations, calls, event log, trial and iteration
 counters, accuracy and stop status. -/
 theorem C11_resume_refinement_irrelevant {α : Type} [Add α] [Sub α] [Mul α] [Div α] [Neg α] [LT α] [LE α]
     [DecidableLT α] [DecidableLE α] [OfNat α 0] [OfNat α 1] [OfNat α 2] [OfNat α 4] [Fns α]
@@ -691,16 +692,25 @@ example :
       (solve (P 50 (1/10)) F noRefine (solve (P 5 (1/10)) F noRefine {})).m.map (fun s => s.items.map (·.hv)) := by
   decide +kernel
 
-/-- what a `Solution` reports as the optimum: point and value holder of the best trial -/
+/-- point and value holder of the METHOD's best trial (`Method.best`; before the repair of `GetResults` this was what a
+`Solution` reported as the optimum) -/
 def C03.exBest (ps : PState Rat) : Option (List Rat × Rat) :=
   ps.m.bind fun s => (findItem s.items s.best).map fun it => (it.point, it.hv)
 
-/-- **Remark (behaviour of the code, reproduced by the model).**  `UpdateOptimum` compares a new value with the
+/-- what `GetResults()` reports as the optimum: point and value holder of the reported trial (`Proc.reportedId`) -/
+def C03.exReported (ps : PState Rat) : Option (List Rat × Rat) :=
+  ps.m.bind fun s => (findItem s.items (reportedId ps s)).map fun it => (it.point, it.hv)
+
+/-- **Remark (behaviour of the repaired code, reproduced by the model).**  `UpdateOptimum` compares a new value with the
 stored `z` of the best trial, not with the value holder that `DoLocalRefinement` overwrote.  So resuming after a
-refined `Solve` can make the reported optimum WORSE: here the first `Solve` (with refinement) reports `(1/3, 0)`, and
-the resumed `Solve` (raised budget, no refinement) reports a trial with a positive value — the same trial an
-unrefined first phase leads to (`C11_resume_refinement_irrelevant`). -/
+refined `Solve` moves the METHOD's best to a trial with a WORSE (positive) value — the same trial an unrefined first phase
+leads to (`C11_resume_refinement_irrelevant`): here the first `Solve` (with refinement) reports `(1/3, 0)`, and after the
+resumed `Solve` (raised budget, no refinement) `Method.best` is a trial with a positive value.  But `GetResults()` remembers the
+refined trial (`Process.__refinedTrial`) and the reported optimum of the resumed run is still the refined `(1/3, 0)`
+(in general: `C04.C04_reported_after_resume`, `C04.C04_reported_mono`). -/
 example :
+    exReported (solve (P 5 (1/10)) F exRefine {}) = some ([1/3], 0) ∧
+    exReported (solve (P 50 (1/10)) F noRefine (solve (P 5 (1/10)) F exRefine {})) = some ([1/3], 0) ∧
     exBest (solve (P 5 (1/10)) F exRefine {}) = some ([1/3], 0) ∧
     exBest (solve (P 50 (1/10)) F noRefine (solve (P 5 (1/10)) F exRefine {})) =
       exBest (solve (P 50 (1/10)) F noRefine (solve (P 5 (1/10)) F noRefine {})) ∧
